@@ -108,10 +108,12 @@ func (st *State) memmove(dst, src *Term, n int) {
 	s := st.constAddr(src, "copy src")
 	so, soff := st.resolve(s, n, "copy source")
 	st.noteAccess(so, soff, n, false)
+	so.ensure()
 	tmp := make([]*Term, n)
 	copy(tmp, so.bytes[soff:soff+n])
 	do, doff := st.resolve(d, n, "copy destination")
 	st.noteAccess(do, doff, n, true)
+	do.ensure()
 	copy(do.bytes[doff:doff+n], tmp)
 	st.publishRange(do, doff, n)
 }
@@ -201,6 +203,7 @@ func (st *State) strConcat(x, y StrV) Value {
 	a := st.byteTerms(x.Ptr, x.Len, "string concat")
 	b := st.byteTerms(y.Ptr, y.Len, "string concat")
 	o := st.newObj(len(a)+len(b), "alloc", "string concat")
+	o.ensure()
 	for i, t := range append(append([]*Term(nil), a...), b...) {
 		if !(t.IsConst() && t.C == 0) {
 			o.bytes[i] = t
@@ -212,6 +215,7 @@ func (st *State) strConcat(x, y StrV) Value {
 // newBytes allocates a byte object with the given constant content and returns a slice value.
 func (st *State) newBytes(b []byte, label string) SliceV {
 	o := st.newObj(len(b), "alloc", label)
+	o.ensure()
 	for i, x := range b {
 		if x != 0 {
 			o.bytes[i] = st.c.Const(8, uint64(x))
